@@ -82,6 +82,11 @@ type Conc struct {
 	Close    bool    `json:"close"`
 	CancelPc int     `json:"cancel_pc"`
 	DelayPc  int     `json:"delay_pc"`
+	// ServeDelayMs: the servers' applications start calling ServeAsk only this long after the askers
+	// started asking: the first asks of every asker arrive before anybody serves
+	ServeDelayMs int `json:"serve_delay_ms"`
+	// LenPolicy overrides the seeded choice of request lengths ("equal", "shrink", "mixed")
+	LenPolicy string `json:"len_policy"`
 	_        float64 `json:"-"`
 }
 
@@ -286,6 +291,7 @@ type askState struct {
 	cancel context.CancelFunc
 
 	started   bool
+	arrived   bool // mbapp over the manual network: the request datagrams were taken by the destination
 	done      chan struct{}
 	entered   chan struct{}
 	enterOnce sync.Once
@@ -325,6 +331,12 @@ type run struct {
 
 	aligned bool
 	lastNow int
+
+	// request lengths: "equal" (every request of the behaviour has the same length, one datagram),
+	// "shrink" (each request is shorter than the one before), "mixed"
+	lenPolicy string
+	lenBase   int
+	nReq      int
 }
 
 func (r *run) emit(e Event) {
@@ -413,6 +425,16 @@ func (r *run) handler(srv *Node) func(ctx context.Context, resp []byte, src stri
 		if as != nil {
 			as.hendOnce.Do(func() { close(as.hend) })
 		}
+		// the handler owns its view of the request and the whole response buffer while it runs:
+		// scribble over the request and over the unused tail of the response
+		for i := range payload {
+			payload[i] = '%'
+		}
+		if n >= 0 {
+			for i := n; i < len(resp) && i < n+64; i++ {
+				resp[i] = '%'
+			}
+		}
 		return n
 	}
 }
@@ -431,6 +453,10 @@ func (r *run) doAsk(as *askState) {
 		}()
 		n, err = as.asker.askFn(as.ctx, resp, as.server, as.req)
 	}()
+	// Ask has returned: the request buffer is the caller's again
+	for i := range as.req {
+		as.req[i] = '#'
+	}
 	ev := Event{Ev: "AskRet", ID: as.k, Node: as.asker.Name, N: n, Err: classify(err), Buf: as.want}
 	if err != nil {
 		ev.Info = err.Error()
@@ -599,13 +625,18 @@ func newRun(b Behaviour) (*run, error) {
 	for _, s := range st.Servers {
 		r.enteredN[s.Name] = &atomic.Int64{}
 	}
+	r.lenPolicy = []string{"equal", "equal", "shrink", "mixed"}[r.rng.Intn(4)]
+	r.lenBase = 44 + r.rng.Intn(21) // 44..64: one mbapp datagram (64 payload bytes)
+	if b.Conc.LenPolicy != "" {
+		r.lenPolicy = b.Conc.LenPolicy
+	}
 	return r, nil
 }
 
 func (r *run) newAsk(k int, asker, server *Node, cls string, gated bool, delay int, want int, timeout time.Duration) *askState {
 	as := &askState{k: k, asker: asker, server: server, want: want, cls: cls,
 		done: make(chan struct{}), entered: make(chan struct{}), release: make(chan struct{}), hend: make(chan struct{})}
-	reqLen := 48 + r.rng.Intn(150)
+	reqLen := r.nextReqLen()
 	as.req = makeReq(reqInfo{beh: r.beh.ID, k: k, asker: asker.Name, want: want, cls: cls, gated: gated, delay: delay}, reqLen, r.rng)
 	if timeout > 0 {
 		as.ctx, as.cancel = context.WithTimeout(r.bg, timeout)
@@ -619,6 +650,23 @@ func (r *run) newAsk(k int, asker, server *Node, cls string, gated bool, delay i
 }
 
 var wants = []int{48, 100, 150}
+
+// nextReqLen: requests of equal length, or shorter after longer, fit into whatever buffer held the
+// previous request at the destination (mbapp's single-datagram path hands on a slice of the receive
+// buffer): a destination that keeps a reference instead of the bytes shows another request's payload
+func (r *run) nextReqLen() int {
+	r.nReq++
+	switch r.lenPolicy {
+	case "equal":
+		return r.lenBase
+	case "shrink":
+		if l := r.lenBase - 2*(r.nReq-1); l >= 40 {
+			return l
+		}
+		return 40
+	}
+	return 40 + r.rng.Intn(160)
+}
 
 // ---------------------------------------------------------------------------------------------
 // scripted family
@@ -666,24 +714,31 @@ func (r *run) runScript() {
 			} else {
 				time.Sleep(300 * time.Microsecond)
 			}
-		case "enter":
+		case "arrive":
+			as := r.getAsk(s.K)
+			if as == nil {
+				continue
+			}
+			if r.st.Manual {
+				as.arrived = r.mbFeedRequest(as)
+			} else {
+				time.Sleep(300 * time.Microsecond)
+			}
+		case "serve":
+			// the destination's application calls ServeAsk once: it is handed one of the requests waiting
+			// there (usually the one the script names; the ledger does not depend on which)
 			as := r.getAsk(s.K)
 			if as == nil {
 				continue
 			}
 			before := r.enteredN[as.server.Name].Load()
-			if r.st.Manual {
-				r.mbFeedRequest(as)
+			if r.st.Manual && !as.arrived {
+				as.arrived = r.mbFeedRequest(as) // the network delivers late what it could not deliver before
 			}
 			r.serveOnce(as.server)
-			if s.Exp == "in" {
-				// some request is taken at that server (FIFO among parked requests: usually this one)
-				deadline := time.Now().Add(short)
-				for r.enteredN[as.server.Name].Load() == before && time.Now().Before(deadline) {
-					time.Sleep(100 * time.Microsecond)
-				}
-			} else {
-				time.Sleep(500 * time.Microsecond)
+			deadline := time.Now().Add(short)
+			for r.enteredN[as.server.Name].Load() == before && time.Now().Before(deadline) {
+				time.Sleep(100 * time.Microsecond)
 			}
 		case "handle":
 			as := r.getAsk(s.K)
@@ -778,13 +833,21 @@ func (r *run) runScript() {
 
 func (r *run) runConcurrent() {
 	c := r.beh.Conc
-	for _, sv := range r.st.Servers {
-		for i := 0; i < 4; i++ {
-			r.serveLoop(sv)
+	startServing := func() {
+		for _, sv := range r.st.Servers {
+			for i := 0; i < 4; i++ {
+				r.serveLoop(sv)
+			}
 		}
 	}
-	if r.st.Mode == "stream" {
-		time.Sleep(5 * time.Millisecond)
+	if c.ServeDelayMs > 0 {
+		// requests arrive before anybody serves
+		time.AfterFunc(time.Duration(c.ServeDelayMs)*time.Millisecond, startServing)
+	} else {
+		startServing()
+		if r.st.Mode == "stream" {
+			time.Sleep(5 * time.Millisecond)
+		}
 	}
 	total := c.Askers * c.Asks
 	// every context ends after maxCtx at the latest; datagram and connection based stacks can only notice a
